@@ -199,6 +199,14 @@ def correspondence(ctx):
                              [{'kind': 'lit', 'arg': a, 'n': 1, 'm': 0} for a in (['int', 1], ['bool', True], ['float', '1.0'], ['str', '1'], ['int', 5])] +
                              [{'kind': 'littype', 'arg': a, 'n': 2, 'm': 1} for a in ('bool', 'str', 'int', 'float', 'list', 'dict')] +
                              [{'kind': 'call', 'arg': 'print', 'n': n, 'm': n} for n in (2, 3, 4)]})
+    # literals in list-valued fields whose FIRST entry is not a node: a dict display starting with an unpacking, keyword-only
+    # defaults after a required keyword-only parameter, a call with *args first
+    progs.append({'src': 'base = {"k": 0}\nopts = {**base, "mode": 7, "deep": [2.5, "in"]}\ndef connect(*, port, retries=3, host="localhost"):\n    return port\n'
+                         'print(connect(port=80), *[1], 9)\n',
+                  'queries': [{'kind': 'lit', 'arg': a, 'n': 1, 'm': 0} for a in (['str', 'mode'], ['int', 7], ['int', 3], ['str', 'localhost'], ['float', '2.5'],
+                                                                                  ['str', 'in'], ['int', 80], ['int', 9], ['str', 'k'], ['int', 42])] +
+                             [{'kind': 'littype', 'arg': a, 'n': 1, 'm': 0} for a in ('dict', 'list', 'str', 'int', 'float')] +
+                             [{'kind': 'call', 'arg': 'connect', 'n': 1, 'm': 0}, {'kind': 'call', 'arg': 'print', 'n': 1, 'm': 1}]})
     for _ in range(nprog):
         src = g.program()
         progs.append({'src': src, 'queries': gen_queries(rng, src, ctx.tier)})
